@@ -102,6 +102,29 @@ def req_line(limit: int, length: int, cut: int) -> bool:
     return (limit == 0 or length <= limit) and line == data[:length]
 
 
+def req_line_parse(limit: int, extra: int, pp: bool, cut: int) -> bool:
+    """
+    pre: 20 <= limit <= 24 and -2 <= extra <= 2 and 0 <= cut <= 3
+    post: __return__
+    """
+    # the whole Request.parse (RequestParser) on a first request whose request line is limit+extra bytes long, with the
+    # PROXY protocol switched on or off (no PROXY line is sent): over the limit <=> rejected
+    from gunicorn.http.parser import RequestParser
+    limit, extra, cut = pick(limit, 20, 24), pick(extra, -2, 2), pick(cut, 0, 3)
+    n = limit + extra
+    target = "/" + "a" * (n - len("GET  HTTP/1.1") - 1)
+    line = ("GET %s HTTP/1.1" % target).encode()
+    data = line + b"\r\nHost: h\r\n\r\n"
+    c = [len(data), 5, n, n + 1][cut]
+    chunks = [x for x in (data[:c], data[c:]) if x]
+    cfg = CFG(limit_request_line=limit, proxy_protocol=pp, proxy_allow_ips=["*"])
+    try:
+        req = next(RequestParser(cfg, iter(chunks), ("10.0.0.1", 1)))
+    except LimitRequestLine:
+        return n > limit
+    return n <= limit and req.uri == target
+
+
 # ---- 3. field count / size -----------------------------------------------------------------------------------------------
 def fields(nf: int, maxf: int, maxsz: int, l1: int, l2: int, l3: int) -> bool:
     """
@@ -112,9 +135,13 @@ def fields(nf: int, maxf: int, maxsz: int, l1: int, l2: int, l3: int) -> bool:
     nf, maxf, maxsz = CASE["nf"], CASE["maxf"], pick(maxsz, 0, 9)
     ls = [pick(l, 0, 5) for l in (l1, l2, l3)[:nf]]
     lines = [b"a" + bytes([98 + i]) + b":" + b"x" * ls[i] for i in range(nf)]       # len = 3 + l
-    r = mk_req()
+    r = mk_req(cfg=CFG(permit_obsolete_folding=bool(CASE.get("fold"))))
     r.limit_request_fields = maxf
     r.limit_request_field_size = maxsz
+    if CASE.get("fold"):
+        # (non-default permit_obsolete_folding) the first field is folded once: still ONE field; the continuation line
+        # "\r\n x" counts towards that field's size only
+        lines[0] = lines[0] + b"\r\n x"
     try:
         hs = r.parse_headers(b"\r\n".join(lines))
     except LimitRequestHeaders:
@@ -242,7 +269,11 @@ OBLIGATIONS = [
     Ob("C12.clamps.twin", "clamps_twin", expect="refute", timeout=120),
     Ob("C12.req_line", "req_line", cases={"quick": [{"maxlimit": 4, "maxlen": 6}], "thorough": [{"maxlimit": 6, "maxlen": 9}]},
        timeout=900, bound="limit 0..4 (thorough 6), request line length 0..6 (9), one cut at any position"),
-    Ob("C12.fields", "fields", cases=[{"nf": a, "maxf": b} for a in (1, 2, 3) for b in (1, 2, 3)], timeout=1200,
+    Ob("C12.req_line_parse", "req_line_parse", timeout=900,
+       bound="real RequestParser: limit_request_line 20..24, request line limit-2..limit+2 bytes, proxy_protocol on/off (no PROXY "
+             "line sent), stream whole or cut at 5 / end of line / between CR and LF"),
+    Ob("C12.fields", "fields", cases=[{"nf": a, "maxf": b} for a in (1, 2, 3) for b in (1, 2, 3)] +
+       [{"nf": a, "maxf": b, "fold": True} for a in (1, 2) for b in (1, 2)], timeout=1200,
        bound="1..3 header fields of length 3..8, limit_request_fields 1..3, limit_request_field_size 0..9"),
     Ob("C12.buffer", "buffer_bound", cases=_BUF, timeout=600,
        bound="endless delimiter-free streams of up to 5-8 reads against read_line, the header-block scan, "
